@@ -172,8 +172,20 @@ func drawFault(tp *tape.Tape, fresh func() string) fault {
 	}
 }
 
+var c08Runs int
+
 func (C08) Run(tp *tape.Tape) core.Result {
 	var r core.Result
+	// every 32nd run of a worker: what the parser makes of a fixed set of statements must not have
+	// changed since the process started, however many statements, failures and sessions came between
+	c08Runs++
+	if c08Runs%32 == 1 {
+		r.Inc("probe.parse_canary_checked", 1)
+		if same, detail := sess.ParseCanary(); !same {
+			r.Violation = &core.Violation{Clause: "parse-depends-on-history", Detail: detail, History: &Hist{Notes: "no history to replay: the difference is between the first and a later parse of the same texts in one process; replay re-runs the search from this seed"}}
+			return r
+		}
+	}
 	sw := drawSwarm(tp)
 	sw.Prelude = true
 	g := newGen(tp, sw)
